@@ -377,6 +377,32 @@ func panicSweep(idx, n int, maxLen int) {
 		}
 	}
 	rec(nil)
+	// the extended-colour forms with semicolons, cut off after every element, alone and between other
+	// parameters (longer than the lists above reach in the quick tier)
+	feed := func(list []string) {
+		k++
+		if k%n != idx {
+			return
+		}
+		s := "a\x1b[" + strings.Join(list, ";") + "mb"
+		r.Count("param_lists", 1)
+		for _, c := range []consumed{viaParse(s), viaNew(s), viaEmulator(s, 2)} {
+			if c.err != "" {
+				r.Violation("C18|panic|"+c.name, len(list), detail{Part: "parameter list -> " + c.name, Encoded: fmt.Sprintf("%q", s), Why: c.err})
+			}
+		}
+	}
+	for _, sel := range []string{"38", "48", "58"} {
+		for _, form := range [][]string{{"5", "200"}, {"2", "10", "20", "30"}, {"2", "", "10", "20", "30"}, {"5"}, {"9", "1"}} {
+			full := append([]string{sel}, form...)
+			for cut := 1; cut <= len(full); cut++ {
+				feed(full[:cut])
+				feed(append([]string{"1"}, full[:cut]...))
+				feed(append(append([]string{}, full[:cut]...), "1"))
+				feed(append(append([]string{}, full[:cut]...), "", ""))
+			}
+		}
+	}
 }
 
 // ---- agreement of the consumers on well-formed parameter lists ---------------------------------------
@@ -651,7 +677,7 @@ func main() {
 	n := r.Get("encodings") + r.Get("param_lists")
 	r.Finish(explore.Coverage{
 		States: -1, Transitions: n, Traces: n, Evaluations: n,
-		Rule:        "every ordered pair of styled cells over three style domains (all 128x128 attribute masks; 125x125 triples of colour classes default/0-7/8-15/16-255/RGB for fg, bg, underline colour; 12x12 underline style and colour combinations) plus all 54x54 pairs of combined styles (attribute x foreground x background x underline), mixed attribute/colour transitions (thorough: all triples over a 16-style domain), all triples over an 8-style domain with one cell that has no grapheme, encoded by EncodeCells, StyledString.Encode and the renderer (SGR sequences of a Refresh), and consumed by ParseStyledString, NewStyledString, the embedded terminal (through the real parser) and the reference terminal: the reference terminal must show the cells and end with a default pen, every consumer must return the cells' styles; plus every SGR parameter list of <= n elements over 44 elements (12 plain values, empty, colon forms of 4/38/48/58 with 2-7 fields and truncated forms) fed to the three library consumers for the no-panic clause. distinct = style sequences that passed",
+		Rule:        "every ordered pair of styled cells over three style domains (all 128x128 attribute masks; 125x125 triples of colour classes default/0-7/8-15/16-255/RGB for fg, bg, underline colour; 12x12 underline style and colour combinations) plus all 54x54 pairs of combined styles (attribute x foreground x background x underline), mixed attribute/colour transitions (thorough: all triples over a 16-style domain), all triples over an 8-style domain with one cell that has no grapheme, encoded by EncodeCells, StyledString.Encode and the renderer (SGR sequences of a Refresh), and consumed by ParseStyledString, NewStyledString, the embedded terminal (through the real parser) and the reference terminal: the reference terminal must show the cells and end with a default pen, every consumer must return the cells' styles; plus every SGR parameter list of <= n elements over 44 elements (12 plain values, empty, colon forms of 4/38/48/58 with 2-7 fields and truncated forms) fed to the three library consumers for the no-panic clause, plus every truncation of the semicolon forms of 38/48/58 alone and between other parameters. distinct = style sequences that passed",
 		Exhaustive:  true,
 		Bounds:      map[string]any{"max_param_list": r.Pick(3, 4)},
 		Assumptions: []string{"hyperlinks are outside the round-trip clause (ParseStyledString and NewStyledString have no OSC 8 handling by design); they are inside the reset-at-end clause"},
